@@ -5,7 +5,7 @@ usage: refactors.py [id ...]"""
 import sys, os, subprocess, re, shutil, json
 
 ROOT = os.path.dirname(os.path.dirname(os.path.abspath(__file__)))
-ALL = ['C%02d' % i for i in range(1, 21)]
+ALL = os.environ.get('REFACTOR_CHECKS', '').split(',') if os.environ.get('REFACTOR_CHECKS') else ['C%02d' % i for i in range(1, 21)]
 R = [
  # attach inlined on the arrival path (the hook of the deadlock detector kept): bypasses the monitors' attach wrapper
  ('R1', 'ciw/node.py', "                if isinf(self.c) is False:\n                    self.attach_server(free_server, ind)\n",
